@@ -19,7 +19,18 @@ func (x *Exec) contractFor(f *ssa.Function) *Contract {
 	if c := x.w.ByFn[f]; c != nil {
 		return c
 	}
-	return x.w.Contracts[externName(f)]
+	return x.externByName(externName(f))
+}
+
+// externByName: an extern of the contract file of the package being verified wins over a global
+// one (spec/externs.spec); externs of other packages' contract files do not apply.
+func (x *Exec) externByName(name string) *Contract {
+	if x.curCon != nil && x.curCon.Pkg != "" {
+		if c := x.w.Contracts[name+"@"+x.curCon.Pkg]; c != nil {
+			return c
+		}
+	}
+	return x.w.Contracts[name]
 }
 
 // externName renders f the way extern contracts are keyed: pkgpath.F or (*pkgpath.T).M
@@ -38,7 +49,7 @@ func (x *Exec) externFor(c *ssa.CallCommon) *Contract {
 		return nil
 	}
 	name := "(" + c.Value.Type().String() + ")." + c.Method.Name()
-	return x.w.Contracts[name]
+	return x.externByName(name)
 }
 
 func (x *Exec) doCall(st *State, fr *Frame, call *ssa.CallCommon, instr ssa.Value, cont retFn) {
@@ -279,7 +290,7 @@ func (x *Exec) invoke(st *State, fr *Frame, call *ssa.CallCommon, recv *Val, arg
 		cont(st, res)
 		return
 	}
-	if c := x.w.Contracts[name]; c != nil {
+	if c := x.externByName(name); c != nil {
 		sig := call.Method.Type().(*types.Signature)
 		x.callByContractIface(st, fr, c, sig, recv, args, pos, cont)
 		return
